@@ -84,3 +84,42 @@ Section PowAccuracy.
     eapply Rle_trans; [exact Hv|]. apply Rmult_le_compat_r; assumption.
   Qed.
 End PowAccuracy.
+
+(* ---------- |result - exact formula| <= eps * reserve (+ one unit), given the Pow error on the operands actually used ---------- *)
+Lemma floor_real_bounds (n q : Z) : (0 <= n)%Z -> (q * P18 <= n < (q + 1) * P18)%Z ->
+  IZR n / D18 - 1 < IZR q <= IZR n / D18.
+Proof.
+  intros Hn [H1 H2]. pose proof D18_pos as HD. apply IZR_le in H1. apply IZR_lt in H2.
+  rewrite mult_IZR in H1. rewrite mult_IZR, plus_IZR in H2. fold D18 in H1, H2. simpl in H2.
+  split.
+  - apply Rmult_lt_reg_r with D18; [exact HD|]. replace ((IZR n / D18 - 1) * D18) with (IZR n - D18) by (field; lra). lra.
+  - apply Rmult_le_reg_r with D18; [exact HD|]. replace (IZR n / D18 * D18) with (IZR n) by (field; lra). lra.
+Qed.
+
+(* exact-in swap: |out - Bout (1 - y^wr)| <= eps Bout + 1 for the 18-decimal operands y, wr the code computes, whenever the
+   power it computed is within eps of their true power *)
+Theorem swap_out_formula_error p i j a fee out (eps : R) :
+  b_calc_out_given_in p i j a fee = Ok out -> (0 <= nthZ (b_res p) j)%Z ->
+  exists y wr pw : Z,
+    y = d_quo (dec_of_int (nthZ (b_res p) i)) (d_mul (dec_of_int a) (P18 - fee) + dec_of_int (nthZ (b_res p) i)) /\
+    wr = d_quo (dec_of_int (nthZ (b_w p) i)) (dec_of_int (nthZ (b_w p) j)) /\ pow y wr = Ok pw /\
+    (Rabs (IZR pw / D18 - Rpower (IZR y / D18) (IZR wr / D18)) <= eps ->
+     Rabs (IZR out - IZR (nthZ (b_res p) j) * (1 - Rpower (IZR y / D18) (IZR wr / D18))) <= eps * IZR (nthZ (b_res p) j) + 1).
+Proof.
+  intros H HB. apply b_calc_out_floor in H as (y & wr & pw & Hy & Hwr & Hpw & Hpos & Hfl).
+  exists y, wr, pw. repeat split; auto. intros Hacc.
+  set (Bj := nthZ (b_res p) j) in *. set (t := Rpower (IZR y / D18) (IZR wr / D18)) in *.
+  assert (HP : (0 < P18)%Z) by reflexivity.
+  assert (Hn : (0 <= (P18 - pw) * Bj)%Z) by nia.
+  pose proof (floor_real_bounds _ _ Hn Hfl) as [Hlo Hhi].
+  rewrite mult_IZR, minus_IZR in Hlo, Hhi. fold D18 in Hlo, Hhi.
+  pose proof D18_pos as HD. apply IZR_le in HB.
+  assert (E : (D18 - IZR pw) * IZR Bj / D18 = IZR Bj * (1 - IZR pw / D18)) by (field; lra).
+  rewrite E in Hlo, Hhi.
+  assert (Ha1 : IZR pw / D18 - t <= eps) by (eapply Rle_trans; [apply Rle_abs|exact Hacc]).
+  assert (Ha2 : - eps <= IZR pw / D18 - t).
+  { pose proof (Rle_abs (- (IZR pw / D18 - t))) as Hq. rewrite Rabs_Ropp in Hq. lra. }
+  assert (Hb1 : IZR Bj * (IZR pw / D18 - t) <= IZR Bj * eps) by (apply Rmult_le_compat_l; lra).
+  assert (Hb2 : IZR Bj * (- eps) <= IZR Bj * (IZR pw / D18 - t)) by (apply Rmult_le_compat_l; lra).
+  apply Rabs_le. split; lra.
+Qed.
